@@ -149,6 +149,30 @@ Theorem C10_distributed_count_equals_central :
 Proof. exact DistTree.distributed_count_equals_central. Qed.
 Print Assumptions C10_distributed_count_equals_central.
 
+(* group: every engine forms the groups of its own partition, the coordinator the groups of those
+   (the operator is kept: group of the engines' groups; a group's value is c = 1 whenever it has a member) *)
+From Verif Require DistGroup TreeOps.
+Theorem C10_distributed_group_equals_central_any_number_of_engines :
+  forall cf w, (0 < Compose.c_shards cf)%nat -> (0 < Compose.c_batch cf)%nat -> (0 <= Compose.c_lookback cf)%Z ->
+  Base.wf_window w -> (Bin.noT < Base.w_start w)%Z ->
+  forall (c : Z) without grouping s, DistTree.sok s ->
+  forall p ps ts, DistTree.part_ok p -> Forall DistTree.part_ok ps -> In ts (Grid.grid w) ->
+  let grp := fun t => Trees.JAgg (fun _ => c) (fun a _ => a) without grouping t in
+  let central := grp (DistTree.inst s (List.concat (map fst (p :: ps))) (List.concat (map snd (p :: ps)))) in
+  let distributed := grp (DistTree.jcoalesce (DistGroup.remote_group_of c without grouping s p)
+                                             (map (DistGroup.remote_group_of c without grouping s) ps)) in
+  exists outs_c outs_d,
+    Trees.jrun cf w central = inl outs_c /\ Trees.jrun cf w distributed = inl outs_d /\
+    Permutation (Bin.labelled Z (Trees.jseries central) (DistTree.step_of outs_c ts))
+                (Bin.labelled Z (Trees.jseries distributed) (DistTree.step_of outs_d ts)).
+Proof. exact DistGroup.distributed_group_equals_central_n. Qed.
+Print Assumptions C10_distributed_group_equals_central_any_number_of_engines.
+
+(* the accumulator of the tree correspondence's group (TreeOps.zinit 3, zadd 3: values are 4 * value) is that one *)
+Example C10_group_accumulator_is_the_modelled_one :
+  (forall v, TreeOps.zinit 3%N v = 4%Z) /\ (forall a v, TreeOps.zadd 3%N a v = a).
+Proof. split; reflexivity. Qed.
+
 (* topk / bottomk: every engine selects among its own series, the coordinator among the selected.
    At every step at which no two samples of a group of the union have the same value, the distributed
    plan returns the central plan's labelled samples (TopkDist.v: cg_selected_iff - a value has fewer
@@ -177,8 +201,8 @@ Print Assumptions C10_distributed_topk_equals_central.
 (* Whole plans: Trees.jref is a congruence for "same labelled samples" (DistEquiv.jsim_requiv: joins,
    per-sample operators, aggregations, topk, coalesce, remote execution and step-invariant wrappers
    map permuted operand values to permuted results and fail together), so a plan in which, anywhere,
-   per-series expressions and sum/max/min aggregations over the union of the partitions are replaced
-   by their distributed forms (DistEquiv.jsim) returns, step by step, the labelled samples of the
+   per-series expressions and sum/max/min/count/group aggregations over the union of the partitions are
+   replaced by their distributed forms (DistEquiv.jsim) returns, step by step, the labelled samples of the
    central plan. *)
 From Verif Require DistEquiv.
 Theorem C10_distributed_plan_equals_central :
@@ -229,10 +253,10 @@ Proof. cbv zeta. split; vm_compute; reflexivity. Qed.
 
 (* PARTIAL. Proved: the shape of what is sent to the partitions, the algebra of the
    distributive reductions for every partitioning, and end to end - through the remote
-   execution's read-back and the coalesce operator - per-series expressions, sum/max/min and
-   count aggregations and (tie-free) topk/bottomk of them over any number of engines, and
-   whole plans built from the expression, sum/max/min and count forms by the other operators
-   (C10_distributed_plan_equals_central). Not proved end to end: the pushdown of group, topk
+   execution's read-back and the coalesce operator - per-series expressions, sum/max/min,
+   count and group aggregations and (tie-free) topk/bottomk of them over any number of engines, and
+   whole plans built from the expression, sum/max/min, count and group forms by the other operators
+   (C10_distributed_plan_equals_central). Not proved end to end: topk
    with ties (C10_topk_pushdown: a top-k selection, not necessarily the central engine's) and
    plans that use a distributed topk below other operators. Those are decided by the dist
    oracle and the distributed tree correspondence of the check. *)
